@@ -78,3 +78,16 @@ def run(thunk):
         return Outcome('ok', thunk())
     except Exception as e:
         return Outcome('err', exc=e)
+
+
+def concretize(v, lo, hi):
+    """Finite-domain (D) variable: let the solver choose the value through a comparison chain and
+    continue with the concrete int.  Used before values reach C code (tuple slicing, hashing,
+    repr/eval, pickle, floats, bitwise ops), where the engine would realise them anyway but with
+    duplicated paths.  None passes through; a value outside [lo, hi] returns the symbolic value."""
+    if v is None:
+        return None
+    for c in range(lo, hi + 1):
+        if v == c:
+            return c
+    return v
